@@ -52,9 +52,12 @@ fn fronts() -> Vec<F> {
         f("T11:a.io P/x policy", "a.io", Prefix, "/x", None, Tree, true),
         f("P1:pre * E/x", "*", Equals, "/x", None, Pre, false),
         f("P2:pre a.io P/a/b GET", "a.io", Prefix, "/a/b", Some("GET"), Pre, false),
+        f("P3:pre * P''", "*", Prefix, "", None, Pre, false),
+        f("P4:pre a.io P/a", "a.io", Prefix, "/a", None, Pre, false),
         f("Q1:post *.a.io P''", "*.a.io", Prefix, "", None, Post, false),
         f("Q2:post * P''", "*", Prefix, "", None, Post, false),
         f("Q3:post a.io P/a", "a.io", Prefix, "/a", None, Post, false),
+        f("Q4:post * P/a", "*", Prefix, "/a", None, Post, false),
     ]
 }
 
@@ -399,12 +402,12 @@ pub fn run(ctx: &Ctx) -> Coverage {
         evaluations: lookups.load(std::sync::atomic::Ordering::Relaxed),
         distinct_nontrivial: sets,
         distinct_outcomes: sets,
-        rule: "all add/remove histories up to the depth over 16 colliding frontends (pre/tree/post; exact, wildcard and regex hosts; PREFIX/EQUALS/REGEX paths; method; policy); state = ordered live list + the router's probe table over 72 probes; every state compared with a precedence reference and with every other insertion order of the same frontend set".into(),
+        rule: "all add/remove histories up to the depth over 19 colliding frontends (4 overlapping pre and 4 overlapping post rules) (pre/tree/post; exact, wildcard and regex hosts; PREFIX/EQUALS/REGEX paths; method; policy); state = ordered live list + the router's probe table over 72 probes; every state compared with a precedence reference and with every other insertion order of the same frontend set".into(),
         exhaustive: !ex.capped,
         bound: json!({"depth": depth, "frontends": all.len(), "probes": HOSTS.len()*PATHS.len()*METHODS.len()}),
         caps_hit: if ex.capped { vec!["max_states".into()] } else { vec![] },
         assumptions: vec![
-            "frontend alphabet of 16 rules on 4 host patterns; one REGEX path and one regex host (the documented-undefined competition between several regexes is not exercised)".into(),
+            "frontend alphabet of 19 rules on 4 host patterns; one REGEX path and one regex host (the documented-undefined competition between several regexes is not exercised)".into(),
             "where path specificity and method specificity disagree both readings of the documented precedence are accepted, but the answer must not depend on insertion order".into(),
             "host selection is modelled host-first (no fall back from an exact host node to a wildcard node when no path rule matches), as the property's 'within a host' wording".into(),
         ],
